@@ -21,6 +21,7 @@ type sharedTab struct {
 	unsafeExternal [][2]string // function, external call that is documented as not safe for concurrent use
 	genWrites      [][2]string // field of PatternNameGenerator, method that assigns it non-atomically
 	wfwWrites      [][2]string // field of WarcFileWriter, function that assigns it (other than the constructor)
+	readerWrites   [][2]string // field of WarcFileReader, method that assigns it
 	poolPuts       [][3]string // function, pool, "niled"/"kept": is the reference dropped right after Put
 	splitMethods   []string    // lock holders with statements outside the locked region: "m!" is entered whenever "m" is
 }
@@ -265,6 +266,8 @@ func collectShared(pkgName string, p *pkgInfo, t *sharedTab) {
 							t.genWrites = append(t.genWrites, [2]string{sel.Sel.Name, fd.Name.Name})
 						case "WarcFileWriter":
 							t.wfwWrites = append(t.wfwWrites, [2]string{sel.Sel.Name, fd.Name.Name})
+						case "WarcFileReader":
+							t.readerWrites = append(t.readerWrites, [2]string{sel.Sel.Name, fd.Name.Name})
 						}
 					}
 				}
@@ -477,6 +480,8 @@ func genSharedAccess(p, db *pkgInfo) string {
 	fmt.Fprintf(&sb, "/-- (field, method) : non-atomic assignments to fields of PatternNameGenerator in its methods -/\ndef generatorFieldWrites : List (String × String) := %s\n\n", leanPairs(uniq2(t.genWrites)))
 	fmt.Fprintf(&sb, "/-- (field, method) : assignments to fields of WarcFileWriter in its methods (the constructor builds a literal) -/\ndef writerStructWrites : List (String × String) := %s\n\n", leanPairs(uniq2(t.wfwWrites)))
 	fmt.Fprintf(&sb, "/-- (function, pool, niled|kept) : sync.Pool Put calls and whether the reference is dropped afterwards -/\ndef poolPuts : List (String × String × String) := %s\n\n", leanTriples(t.poolPuts))
+	sb.WriteString("/-- (field, method) : assignments to fields of WarcFileReader in its methods: what a reader keeps between calls -/\n")
+	fmt.Fprintf(&sb, "def readerFieldWrites : List (String × String) := %s\n\n", leanPairs(uniq2(t.readerWrites)))
 	objs := append(collectPkgObjects("gowarc", p), collectPkgObjects("diskbuffer", db)...)
 	sb.WriteString("/-- (package, variable, maker) : package-level variables holding an object -/\n")
 	fmt.Fprintf(&sb, "def pkgObjects : List (String × String × String) := %s\n\n", leanTriples(objs))
